@@ -161,6 +161,9 @@ func oracleMiscCase(t *testing.T, lines [][]string) string {
 						keyChange = true
 					}
 				}
+				if sb := r.xsubs[toks[1]]; sb != nil && sb.unreg {
+					continue
+				}
 				if b, ok := xbase[toks[1]]; ok && !keyChange {
 					if x := goMonitor(b, toks[2:], cfgSpec(), all); x != "" {
 						vd.fail("xstream", where+":"+x)
@@ -241,7 +244,7 @@ func oracleIdxcCase(t *testing.T, lines [][]string) string {
 			case "ilist":
 				real := map[string]string{}
 				for _, io := range r.ic.List() {
-					real[io.Key] = renderGroup(io.Objects)
+					real[io.Key.s] = renderGroup(io.Objects)
 				}
 				if d := diffMaps(real, spec(), all); d != "" {
 					vd.fail("ilist", where+":"+d)
@@ -255,7 +258,7 @@ func oracleIdxcCase(t *testing.T, lines [][]string) string {
 							got, found = o.Val, true
 						}
 					} else if io := r.ic.GetKey(l[1]); io != nil {
-						got, found = renderGroup(io.Objects), io.Key == l[1]
+						got, found = renderGroup(io.Objects), io.Key.s == l[1]
 					}
 					if found != has || got != s {
 						vd.fail(l[0], where+":"+l[1])
@@ -288,15 +291,30 @@ func oracleInfCase(t *testing.T, lines [][]string) string {
 			}
 			synctest.Wait()
 		}()
-		r = newInfRun().(*infRun)
+		r = newInfRun(lines[0][3:]...).(*infRun)
+		only1 := contains(lines[0][3:], "fn")
+		all_ := map[string]string{} // what exists in the cluster; cms: what the (possibly filtered) informer holds
 		cms := map[string]string{}
 		base, ibase := map[string]map[string]string{}, map[string]map[string]string{}
 		derSpec := func() map[string]string {
 			m := map[string]string{}
 			for k, v := range cms {
 				m[k] = "d:" + v
+				if ns, name, _ := strings.Cut(k, "/"); name == "a" {
+					if _, f := cms[ns+"/b"]; f {
+						m[k] += "+b"
+					}
+				}
 			}
 			return m
+		}
+		visible := func() {
+			cms = map[string]string{}
+			for k, v := range all_ {
+				if !only1 || strings.HasPrefix(k, "n1/") {
+					cms[k] = v
+				}
+			}
 		}
 		cmMap := func(l []*corev1.ConfigMap) (map[string]string, bool) {
 			m := map[string]string{}
@@ -315,25 +333,28 @@ func oracleInfCase(t *testing.T, lines [][]string) string {
 			impl, trace := r.step(l)
 			switch {
 			case l[0] == "k.create" && len(l) == 4:
-				_, f := cms[l[1]+"/"+l[2]]
+				_, f := all_[l[1]+"/"+l[2]]
 				if (impl == "ok") == f {
 					vd.fail("api", where+":create:"+impl)
 				}
 				if impl == "ok" {
-					cms[l[1]+"/"+l[2]] = l[3]
+					all_[l[1]+"/"+l[2]] = l[3]
 				}
+				visible()
 			case l[0] == "k.update" && len(l) == 4:
-				_, f := cms[l[1]+"/"+l[2]]
+				_, f := all_[l[1]+"/"+l[2]]
 				if (impl == "ok") != f {
 					vd.fail("api", where+":update:"+impl)
 				}
 				if impl == "ok" {
-					cms[l[1]+"/"+l[2]] = l[3]
+					all_[l[1]+"/"+l[2]] = l[3]
 				}
+				visible()
 			case l[0] == "k.delete" && len(l) == 3:
 				if impl == "ok" {
-					delete(cms, l[1]+"/"+l[2])
+					delete(all_, l[1]+"/"+l[2])
 				}
+				visible()
 			case l[0] == "sub" && len(l) == 3:
 				if l[2] == "nostate" {
 					base[l[1]] = derSpec()
@@ -375,6 +396,9 @@ func oracleInfCase(t *testing.T, lines [][]string) string {
 				bs, final := base, derSpec()
 				if l[0] == "istream" {
 					bs, final = ibase, copyMap(cms)
+				}
+				if sb := r.isubs[toks[1]]; l[0] == "istream" && sb != nil && sb.unreg {
+					continue
 				}
 				if b, ok := bs[toks[1]]; ok {
 					if x := goMonitor(b, toks[2:], final, all); x != "" {
